@@ -146,3 +146,13 @@ Theorem C06_go_argument_types_partial : forall st c name ps v,
   ret_types_of v = map (fun p => go_type_of st c (param_col p)) ps.
 Proof. exact arg_types_are_param_types. Qed.
 Print Assumptions C06_go_argument_types_partial.
+
+(** ** SET col = $n / INSERT (col) VALUES ($n) take the type of the TARGET relation's column because
+    the target is the first RangeVar astutils.Search meets: Walk visits the Relation field of
+    UpdateStmt / InsertStmt / DeleteStmt before every other field (in particular before the WITH
+    clause and the FROM items) - re-checked against the regenerated walk-order table on every run. *)
+From Verif Require Import Proofs.TargetFirst.
+Theorem C06_target_relation_visited_first :
+  forallb relation_first ["UpdateStmt"; "InsertStmt"; "DeleteStmt"] = true.
+Proof. exact target_relation_visited_first. Qed.
+Print Assumptions C06_target_relation_visited_first.
